@@ -793,7 +793,7 @@ func (d *c15Driver) doRead(n int, err error) {
 	}
 	c := d.inner.log[before]
 	if gn != c.N || gerr != c.Err || gn < 0 || gn > len(buf) || string(buf[:gn]) != c.Data {
-		d.viol("c15/transparency", "Read: caller got (%d, %v, %q), the inner conn returned (%d, %v, %q)", gn, gerr, trunc(string(buf[:max(0, min(gn, len(buf)))])), c.N, c.Err, trunc(c.Data))
+		d.viol("c15/transparency", "Read: caller got (%d, %v, %q), the inner conn returned (%d, %v, %q)", gn, gerr, c15Trunc(string(buf[:max(0, min(gn, len(buf)))])), c.N, c.Err, c15Trunc(c.Data))
 	}
 	for _, b := range buf[c.N:] {
 		if b != 0xAA {
@@ -1226,13 +1226,13 @@ func c15Compare(s *c15Stream, e *c15Exp, d c15Delivery, end *c15End) (class, det
 		return "c15/events", "trace without events"
 	}
 	if _, ok := tr.Events[0].(*RequestStart); !ok {
-		return "c15/events", fmt.Sprintf("first event is %s", evString(tr.Events[0]))
+		return "c15/events", fmt.Sprintf("first event is %s", c15EvString(tr.Events[0]))
 	}
 	var reqData, respData []c15Evt
 	var names []string
 	respStarts, reqEndsNil := 0, 0
 	for i, ev := range tr.Events {
-		names = append(names, evString(ev))
+		names = append(names, c15EvString(ev))
 		last := i == len(tr.Events)-1
 		finishing := false
 		switch x := ev.(type) {
@@ -1312,16 +1312,16 @@ func c15Compare(s *c15Stream, e *c15Exp, d c15Delivery, end *c15End) (class, det
 	case *RequestCanceled:
 		lastErr = tr.Err
 	default:
-		return "c15/end", fmt.Sprintf("last event %s is not an end event", evString(lastEv))
+		return "c15/end", fmt.Sprintf("last event %s is not an end event", c15EvString(lastEv))
 	}
 	switch e.final {
 	case "end":
 		if _, ok := lastEv.(*ResponseBodyEnd); !ok || lastErr != nil || tr.Err != nil {
-			return "c15/end", fmt.Sprintf("stream ended with END_STREAM; last event %s, trace error %v", evString(lastEv), tr.Err)
+			return "c15/end", fmt.Sprintf("stream ended with END_STREAM; last event %s, trace error %v", c15EvString(lastEv), tr.Err)
 		}
 	case "client-rst", "server-rst", "goaway":
 		if lastErr == nil || tr.Err == nil || !strings.Contains(tr.Err.Error(), e.code.String()) || !strings.Contains(lastErr.Error(), e.code.String()) {
-			return "c15/end", fmt.Sprintf("stream ended by %s %s; last event %s, trace error %v", e.final, e.code, evString(lastEv), tr.Err)
+			return "c15/end", fmt.Sprintf("stream ended by %s %s; last event %s, trace error %v", e.final, e.code, c15EvString(lastEv), tr.Err)
 		}
 	case "conn":
 		ok := lastErr != nil && tr.Err != nil
@@ -1329,7 +1329,7 @@ func c15Compare(s *c15Stream, e *c15Exp, d c15Delivery, end *c15End) (class, det
 			ok = errors.Is(tr.Err, end.err) || strings.Contains(tr.Err.Error(), end.err.Error())
 		}
 		if !ok {
-			return "c15/end", fmt.Sprintf("connection ended with %v; last event %s, trace error %v", end.err, evString(lastEv), tr.Err)
+			return "c15/end", fmt.Sprintf("connection ended with %v; last event %s, trace error %v", end.err, c15EvString(lastEv), tr.Err)
 		}
 	}
 	return "", ""
@@ -1497,4 +1497,385 @@ func c15Judge(cs *c15Case, seq []*c15Frame, end *c15End, got []c15Delivery) *c15
 		v.probes["final:"+e.final]++
 	}
 	return v
+}
+
+func c15EvString(e Event) string {
+	switch x := e.(type) {
+	case *RequestStart:
+		return "RequestStart"
+	case *RequestBodyData:
+		return fmt.Sprintf("RequestBodyData{%d,%d}", x.MessageIndex, x.Len)
+	case *RequestBodyEnd:
+		return fmt.Sprintf("RequestBodyEnd{%v}", x.Err)
+	case *ResponseStart:
+		return "ResponseStart"
+	case *ResponseError:
+		return fmt.Sprintf("ResponseError{%v}", x.Err)
+	case *ResponseBodyData:
+		return fmt.Sprintf("ResponseBodyData{%d,%d}", x.MessageIndex, x.Len)
+	case *ResponseBodyEndStream:
+		return "ResponseBodyEndStream"
+	case *ResponseBodyEnd:
+		return fmt.Sprintf("ResponseBodyEnd{%v}", x.Err)
+	case *RequestCanceled:
+		return "RequestCanceled"
+	}
+	return fmt.Sprintf("%T", e)
+}
+
+// ---------------------------------------------------------------------------
+// scenario c15-wellformed
+
+func c15WellformedRun(t *testing.T, tape *simrt.Tape, o simwork.Opts) *simwork.Result {
+	res := &simwork.Result{Faults: map[string]int{}, Probes: map[string]int{}}
+	simrt.Bump()
+	p := simwork.Bubble(t, func(t *testing.T) { c15WellformedBody(tape, o, res) })
+	if p != nil {
+		res.Violations = append(res.Violations, simwork.Violation{Class: "c15/panic", Detail: "outside Read/Write/Close: " + fmt.Sprint(p)})
+	}
+	return res
+}
+
+func c15WellformedBody(tape *simrt.Tape, o simwork.Opts, res *simwork.Result) {
+	cs := c15Generate(tape, o.Tier)
+	sample := &c15Sample{Scenario: "c15-wellformed", Role: "client"}
+	if cs.IsServer {
+		sample.Role = "server"
+	}
+	res.Sample = sample
+	for _, s := range cs.Streams {
+		sd := c15StreamDesc{ID: s.ID, Name: s.Name, RetryOf: s.RetryOf, ReqEnd: s.ReqEnd, ReqBody: len(s.ReqBody), Resp: s.RespKind, RespBody: len(s.RespBody), Early: s.Early}
+		if strings.HasPrefix(s.RespKind, "rst") {
+			sd.Code = s.Code.String()
+		}
+		sample.Streams = append(sample.Streams, sd)
+	}
+	for _, f := range cs.Frames {
+		sample.Order = append(sample.Order, f.String())
+	}
+	if err := cs.encode(); err != nil {
+		res.Invalid = append(res.Invalid, "generator could not encode the exchange: "+err.Error())
+		return
+	}
+	sample.Bytes = [2]int{len(cs.bytes[0]), len(cs.bytes[1])}
+	d := newC15Driver(tape, res, cs.IsServer, cs.bytes)
+	var byDir [2][]*c15Frame
+	for _, f := range cs.Frames {
+		byDir[f.Dir] = append(byDir[f.Dir], f)
+		d.starts[f.Dir] = append(d.starts[f.Dir], f.phys...)
+		d.ends[f.Dir] = append(d.ends[f.Dir], f.phys...)
+		d.mix(uint64(f.Dir)<<8 | uint64(f.Kind))
+		d.mix(uint64(f.Stream + 1))
+		if f.Kind == fkHeaders && f.Parts > 1 {
+			res.Probes["continuation"]++
+		}
+	}
+	for dir := 0; dir < 2; dir++ {
+		d.ends[dir] = append(d.ends[dir], len(cs.bytes[dir]))
+		sort.Ints(d.ends[dir])
+	}
+	nDone := 0 // completion order equals the global order: the done frames are a prefix
+	d.after = func() {
+		for nDone < len(cs.Frames) && d.pos[cs.Frames[nDone].Dir] >= cs.Frames[nDone].end {
+			cs.Frames[nDone].doneAt = d.now()
+			nDone++
+		}
+	}
+	limit := func(dir int) int {
+		otherNext := 1 << 30
+		for _, f := range byDir[1-dir] {
+			if d.pos[1-dir] < f.end {
+				otherNext = f.gidx
+				break
+			}
+		}
+		for _, f := range byDir[dir] {
+			if d.pos[dir] < f.end && f.gidx > otherNext {
+				return f.end - 1
+			}
+		}
+		return len(cs.bytes[dir])
+	}
+	for !d.dead {
+		var sides, avail []int
+		for dir := 0; dir < 2; dir++ {
+			if a := limit(dir) - d.pos[dir]; a > 0 {
+				sides, avail = append(sides, dir), append(avail, a)
+			}
+		}
+		if len(sides) == 0 {
+			break
+		}
+		k := tape.Choose(len(sides), "side")
+		d.step(sides[k], d.chunk(sides[k], avail[k]))
+	}
+	if !d.dead && nDone != len(cs.Frames) {
+		res.Invalid = append(res.Invalid, "delivery stalled before all frames were delivered")
+		return
+	}
+	// what the tracer may have seen of a failed short write
+	nSeen := nDone
+	if d.endKind == "write-short" {
+		w := 1 - d.readDir
+		for nSeen < len(cs.Frames) && cs.Frames[nSeen].Dir == w && cs.Frames[nSeen].end <= d.tracerAt {
+			cs.Frames[nSeen].doneAt = d.connEndAt
+			nSeen++
+		}
+	}
+	d.finish()
+	sample.Calls, sample.Fault = d.calls, d.endKind
+	res.End = "done"
+	if d.endKind != "close" && d.endKind != "" {
+		res.End = d.endKind
+	}
+	res.LogHash = d.hash
+	res.Nontrivial = d.ncalls > 3
+	res.SimTime = d.now()
+	if d.panicked {
+		res.End = "panic"
+		return
+	}
+	end := &c15End{at: d.connEndAt, err: d.connErr}
+	d.sink.mu.Lock()
+	got := append([]c15Delivery(nil), d.sink.got...)
+	d.sink.mu.Unlock()
+	v := c15Judge(cs, cs.Frames[:nSeen], end, got)
+	if len(v.viols) > 0 && nSeen != nDone {
+		if v2 := c15Judge(cs, cs.Frames[:nDone], end, got); len(v2.viols) == 0 {
+			v = v2
+		}
+	}
+	res.Violations = append(res.Violations, v.viols...)
+	for k, n := range v.probes {
+		res.Probes[k] += n
+	}
+	res.Cover = append(res.Cover, v.cover...)
+}
+
+// ---------------------------------------------------------------------------
+// scenario c15-bytes: arbitrary input, transparency and no panic
+
+func c15BytesRun(t *testing.T, tape *simrt.Tape, o simwork.Opts) *simwork.Result {
+	res := &simwork.Result{Faults: map[string]int{}, Probes: map[string]int{}}
+	simrt.Bump()
+	p := simwork.Bubble(t, func(t *testing.T) { c15BytesBody(tape, o, res) })
+	if p != nil {
+		res.Violations = append(res.Violations, simwork.Violation{Class: "c15/panic", Detail: "outside Read/Write/Close: " + fmt.Sprint(p)})
+	}
+	return res
+}
+
+// c15Soup draws syntactically valid frames in an arbitrary order.
+func c15Soup(tape *simrt.Tape) []*c15Frame {
+	frames := []*c15Frame{{Dir: dirReq, Kind: fkPreface, Stream: -1}, {Dir: dirReq, Kind: fkSettings, Stream: -1}}
+	n := 2 + tape.Choose(14, "soup-n")
+	for i := 0; i < n; i++ {
+		f := &c15Frame{Dir: tape.Choose(2, "soup-dir"), Stream: -1, Parts: 1}
+		f.SID = []uint32{1, 1, 3, 5, 0, 2}[tape.Choose(6, "soup-sid")]
+		f.EndStream = tape.Bool(1, 3, "soup-es")
+		named := !tape.Bool(1, 3, "soup-unnamed")
+		switch tape.Choose(12, "soup-kind") {
+		case 0, 1:
+			f.Kind, f.Role = fkHeaders, "request"
+			f.Fields = []c15Hdr{{":method", "POST"}, {":scheme", "http"}, {":authority", "h"}, {":path", "/s/M"}, {"content-type", "application/grpc"}}
+			if named {
+				f.Fields = append(f.Fields, c15Hdr{"x-test-case-name", fmt.Sprintf("Soup/%d", f.SID)})
+			}
+		case 2:
+			f.Kind, f.Role = fkHeaders, "response"
+			f.Fields = []c15Hdr{{":status", []string{"200", "abc", ""}[tape.Choose(3, "soup-status")]}, {"content-type", []string{"application/grpc", "application/json", "application/connect+json"}[tape.Choose(3, "soup-ct")]}}
+		case 3:
+			f.Kind, f.Role = fkHeaders, "trailers"
+			f.Fields = []c15Hdr{{"grpc-status", "0"}}
+		case 4, 5:
+			f.Kind = fkData
+			f.Data = [][]byte{nil, {0, 0, 0, 0, 2, 'h', 'i'}, {0, 0, 0}, {2, 0, 0, 0, 9, 'x'}, {0x80, 0, 0, 0, 1, 'y', 0, 0}}[tape.Choose(5, "soup-data")]
+		case 6:
+			f.Kind, f.EndStream = fkRST, false
+			f.Code = []http2.ErrCode{http2.ErrCodeCancel, http2.ErrCodeRefusedStream, http2.ErrCodeNo}[tape.Choose(3, "soup-code")]
+		case 7:
+			f.Kind, f.EndStream = fkGoAway, false
+			f.LastID = []uint32{0, 1, 3, 1<<31 - 1}[tape.Choose(4, "soup-last")]
+			f.Code = []http2.ErrCode{http2.ErrCodeNo, http2.ErrCodeProtocol}[tape.Choose(2, "soup-gcode")]
+		case 8:
+			f.Kind, f.EndStream = []int{fkSettings, fkSettingsAck, fkPing, fkWindowUpdate}[tape.Choose(4, "soup-conn")], false
+		case 9: // PRIORITY
+			f.Kind, f.RawType, f.Data, f.EndStream = fkRaw, 2, []byte{0, 0, 0, 0, 7}, false
+		case 10: // an unknown frame type, or a lone CONTINUATION
+			f.Kind, f.RawType, f.Data, f.EndStream = fkRaw, 0xfa, []byte("??"), false
+			if c15GenContinuation && tape.Bool(1, 2, "soup-cont") {
+				f.RawType, f.RawFlags = 9, 4
+			}
+		case 11: // flags the frame type does not define
+			f.Kind, f.RawType, f.RawFlags, f.EndStream = fkRaw, byte(tape.Choose(10, "soup-type")), byte(tape.Choose(256, "soup-flags")), false
+			f.Data = make([]byte, tape.Choose(12, "soup-rawlen"))
+		}
+		if f.Kind == fkHeaders && c15GenContinuation && tape.Bool(1, 8, "soup-split") {
+			f.Parts, f.CutPm = 2, []int{500}
+		}
+		frames = append(frames, f)
+	}
+	return frames
+}
+
+func c15BytesBody(tape *simrt.Tape, o simwork.Opts, res *simwork.Result) {
+	sample := &c15Sample{Scenario: "c15-bytes"}
+	res.Sample = sample
+	isServer := tape.Bool(1, 2, "is-server")
+	sample.Role = map[bool]string{true: "server", false: "client"}[isServer]
+	var pieces [2][][]byte // per direction: preface and physical frames
+	mode := tape.Choose(3, "mode")
+	sample.Mode = []string{"valid-exchange-mutated", "frame-soup", "random-bytes"}[mode]
+	switch mode {
+	case 0, 1:
+		var frames []*c15Frame
+		if mode == 0 {
+			frames = c15Generate(tape, o.Tier).Frames
+		} else {
+			frames = c15Soup(tape)
+		}
+		e := newC15Encoder()
+		for _, f := range frames {
+			if err := e.write(f); err != nil {
+				continue // a frame the Framer refuses to write is simply left out
+			}
+			if len(sample.Order) < 60 {
+				sample.Order = append(sample.Order, f.String())
+			}
+		}
+		for _, f := range frames {
+			b := e.buf[f.Dir].Bytes()
+			if f.end <= f.start || f.end > len(b) {
+				continue
+			}
+			bounds := append(append([]int(nil), f.phys...), f.end)
+			if len(f.phys) == 0 {
+				bounds = []int{f.start, f.end}
+			}
+			for i := 0; i+1 < len(bounds); i++ {
+				pieces[f.Dir] = append(pieces[f.Dir], append([]byte(nil), b[bounds[i]:bounds[i+1]]...))
+			}
+		}
+	case 2:
+		for dir := 0; dir < 2; dir++ {
+			var b []byte
+			if dir == dirReq && !tape.Bool(1, 4, "no-preface") {
+				pieces[dir] = append(pieces[dir], []byte(clientPreface))
+			}
+			n := tape.Choose(120, "random-len")
+			for i := 0; i < n; i++ {
+				// mostly small values so that frame lengths and types are often plausible
+				if tape.Bool(1, 3, "random-any") {
+					b = append(b, byte(tape.Choose(256, "byte")))
+				} else {
+					b = append(b, byte(tape.Choose(10, "small-byte")))
+				}
+			}
+			pieces[dir] = append(pieces[dir], b)
+		}
+	}
+	// frame-level mutations
+	nmut := 0
+	if mode == 0 {
+		nmut = 1 + tape.Choose(3, "nmut")
+	} else if mode == 1 {
+		nmut = tape.Choose(2, "nmut")
+	}
+	var data [2][]byte
+	var muts []string
+	flatten := func() {
+		for dir := 0; dir < 2; dir++ {
+			data[dir] = nil
+			for _, p := range pieces[dir] {
+				data[dir] = append(data[dir], p...)
+			}
+		}
+	}
+	for i := 0; i < nmut; i++ {
+		dir := tape.Choose(2, "mut-dir")
+		kind := tape.Choose(6, "mut-kind")
+		ps := pieces[dir]
+		switch {
+		case kind == 0 && len(ps) > 0: // drop a frame
+			k := tape.Choose(len(ps), "mut-frame")
+			pieces[dir] = append(append([][]byte(nil), ps[:k]...), ps[k+1:]...)
+			muts = append(muts, fmt.Sprintf("drop frame %d of dir %d", k, dir))
+		case kind == 1 && len(ps) > 1: // swap neighbours
+			k := tape.Choose(len(ps)-1, "mut-frame")
+			ps[k], ps[k+1] = ps[k+1], ps[k]
+			muts = append(muts, fmt.Sprintf("swap frames %d,%d of dir %d", k, k+1, dir))
+		case kind == 2 && len(ps) > 0: // duplicate a frame
+			k := tape.Choose(len(ps), "mut-frame")
+			pieces[dir] = append(append(append([][]byte(nil), ps[:k+1]...), ps[k]), ps[k+1:]...)
+			muts = append(muts, fmt.Sprintf("duplicate frame %d of dir %d", k, dir))
+		default: // byte-level, applied on the flattened stream of this direction
+			flatten()
+			b := data[dir]
+			if len(b) == 0 {
+				continue
+			}
+			switch kind {
+			case 3, 0, 1, 2:
+				for k := 1 + tape.Choose(4, "nflips"); k > 0; k-- {
+					at := tape.Choose(len(b), "flip-at")
+					b[at] ^= 1 << tape.Choose(8, "flip-bit")
+					muts = append(muts, fmt.Sprintf("flip bit at %d of dir %d", at, dir))
+				}
+			case 4:
+				at := tape.Choose(len(b), "trunc-at")
+				b = b[:at]
+				muts = append(muts, fmt.Sprintf("truncate dir %d at %d", dir, at))
+			case 5:
+				a := tape.Choose(len(b), "dup-at")
+				l := 1 + tape.Choose(min(64, len(b)-a), "dup-len")
+				b = append(append(append([]byte(nil), b[:a+l]...), b[a:a+l]...), b[a+l:]...)
+				muts = append(muts, fmt.Sprintf("duplicate %d bytes at %d of dir %d", l, a, dir))
+			}
+			pieces[dir] = [][]byte{b}
+		}
+	}
+	flatten()
+	sample.Order = append(sample.Order, muts...)
+	sample.Bytes = [2]int{len(data[0]), len(data[1])}
+	d := newC15Driver(tape, res, isServer, data)
+	for dir := 0; dir < 2; dir++ {
+		off := 0
+		for _, p := range pieces[dir] {
+			d.starts[dir] = append(d.starts[dir], off)
+			off += len(p)
+			d.ends[dir] = append(d.ends[dir], off)
+		}
+		for _, b := range data[dir] {
+			d.mix(uint64(b))
+		}
+	}
+	for !d.dead {
+		var sides []int
+		for dir := 0; dir < 2; dir++ {
+			if d.pos[dir] < len(data[dir]) {
+				sides = append(sides, dir)
+			}
+		}
+		if len(sides) == 0 {
+			break
+		}
+		dir := sides[tape.Choose(len(sides), "side")]
+		d.step(dir, d.chunk(dir, len(data[dir])-d.pos[dir]))
+	}
+	d.finish()
+	sample.Calls, sample.Fault = d.calls, d.endKind
+	res.End = "done"
+	if d.endKind != "close" && d.endKind != "" {
+		res.End = d.endKind
+	}
+	if d.panicked {
+		res.End = "panic"
+	}
+	res.LogHash = d.hash
+	res.Nontrivial = d.ncalls > 3
+	res.SimTime = d.now()
+	d.sink.mu.Lock()
+	res.Probes[fmt.Sprintf("traces-delivered:%d", min(len(d.sink.got), 3))]++
+	d.sink.mu.Unlock()
+	res.Cover = append(res.Cover, fmt.Sprintf("mode=%s server=%v end=%s", sample.Mode, isServer, res.End))
 }
